@@ -12,6 +12,7 @@ import (
 	"net/http/httptest"
 	"os"
 	"path/filepath"
+	"runtime"
 	"sort"
 	"strings"
 	"sync"
@@ -150,6 +151,76 @@ func (v *vfRecv) put(path string, body []byte, hdr map[string]string) int {
 	}
 	v.router.ServeHTTP(rr, req)
 	return rr.Code
+}
+
+// Event log pulled from the hook package. Quiescence is judged per channel name: messages that a receiver of an earlier case
+// (which ended early, e.g. on a violation) still processes afterwards must not be counted for the current case.
+var (
+	vfEvMu  sync.Mutex
+	vfEvLog []vhook.Ev
+)
+
+func vfEvPull() {
+	evs := vhook.Drain()
+	vfEvMu.Lock()
+	vfEvLog = append(vfEvLog, evs...)
+	vfEvMu.Unlock()
+}
+
+// vfEvReset forgets everything logged so far.
+func vfEvReset() {
+	vhook.Drain()
+	vfEvMu.Lock()
+	vfEvLog = nil
+	vfEvMu.Unlock()
+}
+
+// vfEventsFor returns the logged events whose channel name (first value) starts with the prefix, in order.
+func vfEventsFor(chPrefix string) []vhook.Ev {
+	vfEvPull()
+	vfEvMu.Lock()
+	defer vfEvMu.Unlock()
+	var out []vhook.Ev
+	for _, e := range vfEvLog {
+		if len(e.KV) > 0 {
+			if c, ok := e.KV[0].(string); ok && strings.HasPrefix(c, chPrefix) {
+				out = append(out, e)
+			}
+		}
+	}
+	return out
+}
+
+// vfCompleted counts the completed uploads (recv.processed with complete=true) the channel goroutines of these channels have handled.
+func vfCompleted(chPrefix string) int {
+	n := 0
+	for _, e := range vfEventsFor(chPrefix) {
+		if e.Name == "recv.processed" && len(e.KV) >= 5 && e.KV[4] == true {
+			n++
+		}
+	}
+	return n
+}
+
+// vfWaitCompleted waits until n uploads to the channels with the prefix have been handled completely (watchdog d).
+func vfWaitCompleted(chPrefix string, n int, d time.Duration) bool {
+	if n <= 0 {
+		return true
+	}
+	deadline := time.Now().Add(d)
+	for i := 0; ; i++ {
+		if vfCompleted(chPrefix) >= n {
+			return true
+		}
+		if time.Now().After(deadline) {
+			return false
+		}
+		if i < 200 {
+			runtime.Gosched()
+		} else {
+			time.Sleep(100 * time.Microsecond)
+		}
+	}
 }
 
 // quiesce waits until the channel goroutines have processed n messages in total (0 = do not wait).
